@@ -11,7 +11,9 @@ configurations (constants overridden per tier below):
   SP_typed.cfg  typed and untyped objects mixed, three slots, histories bounded by MaxSteps
   SP_grow.cfg   two objects, many handles, operations biased to the capacity boundaries
                 3 -> heap(6) -> 12 -> 24 -> 48 (AddFill = fill exactly to capacity, AddHandle = one more)
-  SP_deep.cfg   one/two objects, add/pop/merge only, up to the 48 -> 96 doubling (thorough)
+  SP_deep.cfg   two objects, up to 52 handles: the 24 -> 48 and 48 -> 96 doublings (thorough)
+  SP_sim.cfg    tlc -simulate: random behaviours of up to 60 operations, 3 objects, 40 handles (no replay)
+plus TLC-only runs of SP_all.cfg with typed objects / one more handle.
 """
 from collections import deque
 
@@ -182,7 +184,7 @@ def run(ctx):
     grow = ["ConstructEmpty", "MoveConstruct", "AddHandle", "AddTo", "MergeShl", "Pop", "Clear", "Destroy", "CoAwait", "Finish"]
     jobs = [
         # (cfg, tag, constants, must_take, extra_random)
-        ("SP_all.cfg", "all", {"MaxObj": 2, "MaxH": 5 if q else 6}, full, 100 if q else 1000),
+        ("SP_all.cfg", "all", {"MaxObj": 2, "MaxH": 5}, full, 100 if q else 1000),
         ("SP_typed.cfg", "typed", {"MaxSteps": 4 if q else 5}, full, 100 if q else 1000),
         ("SP_grow.cfg", "grow", {"MaxSteps": 6 if q else 7}, grow + ["MoveAssign"], 100 if q else 1000),
     ]
@@ -191,7 +193,22 @@ def run(ctx):
         jobs.append(("SP_deep.cfg", "deep", None, grow, 1000))
     for (cfg, tag, consts, must, rnd) in jobs:
         replay(ctx, "SuspendPoint", "SuspendPoint", cfg, tag, rp, proj, header_fn=hdr, must_take=must,
-                     constants=consts, extra_random=rnd, tlc_kw={"workers": 4})
+               constants=consts, extra_random=rnd, tlc_kw={"workers": 4})
+    # specification-level runs without replay: larger exhaustive bounds, random long behaviours
+    sd = vlib.VERIF + "/spec/SuspendPoint/"
+    extra = [("SP_all.cfg", "all_typed", {"MaxObj": 2, "MaxH": 4, "Typed": "TRUE"}, {})]
+    if not q:
+        extra.append(("SP_all.cfg", "all6", {"MaxObj": 2, "MaxH": 6}, {}))
+        extra.append(("SP_all.cfg", "all_typed5", {"MaxObj": 2, "MaxH": 5, "Typed": "TRUE"}, {}))
+    extra.append(("SP_sim.cfg", "sim", None, {"simulate": "num=%d" % (2000 if q else 50000), "depth": 62, "seed": ctx.seed}))
+    for (cfg, tag, consts, kw) in extra:
+        path = sd + cfg
+        if consts:
+            path = vlib.BUILD + "/C06_%s.cfg" % tag
+            vlib.write_cfg(path, open(sd + cfg).read(), consts)
+        res = ctx.tlc("SuspendPoint", "SuspendPoint", path, tag, workers=4, **kw)
+        if res.violation:
+            ctx.tlc_violation(res, "SuspendPoint:%s[%s]" % (cfg, tag))
     ctx.assume("handles are coroutines that neither touch the suspend point being operated on nor the ready queue "
                "(re-entrant use of a suspend point from a coroutine it resumes is not modelled)")
     ctx.assume("each handle is handed to a suspend point at most once and lives in one suspend point at a time; "
